@@ -232,6 +232,22 @@ pub proof fn lemma_keep_props<T>(s: Seq<T>, f: spec_fn(T) -> bool)
     }
 }
 
+// witness-returning forms (no quantified conclusions: safe to use inside large functions)
+pub proof fn lemma_keep_src<T>(s: Seq<T>, f: spec_fn(T) -> bool, j: int) -> (i: int)
+    requires 0 <= j < seq_keep(s, f).len(),
+    ensures 0 <= i < s.len() && s[i] == seq_keep(s, f)[j] && f(s[i]),
+{
+    lemma_keep_props(s, f);
+    choose|i: int| 0 <= i < s.len() && s[i] == seq_keep(s, f)[j]
+}
+pub proof fn lemma_keep_dst<T>(s: Seq<T>, f: spec_fn(T) -> bool, i: int) -> (j: int)
+    requires 0 <= i < s.len(), f(s[i]),
+    ensures 0 <= j < seq_keep(s, f).len() && seq_keep(s, f)[j] == s[i],
+{
+    lemma_keep_props(s, f);
+    choose|j: int| 0 <= j < seq_keep(s, f).len() && seq_keep(s, f)[j] == s[i]
+}
+
 pub proof fn lemma_keep_all<T>(s: Seq<T>, f: spec_fn(T) -> bool)
     requires forall|i: int| 0 <= i < s.len() ==> f(#[trigger] s[i]),
     ensures seq_keep(s, f) == s,
@@ -396,6 +412,7 @@ pub open spec fn not_start(so: u64) -> spec_fn(Segment) -> bool { |s: Segment| s
 pub open spec fn by_start() -> spec_fn(Segment) -> u64 { |s: Segment| s.start_offset }
 
 // a failed delete_segment leaves every segment in place; only the target may have lost its file handles
+#[verifier::opaque]
 pub open spec fn segs_same_except(a: Seq<Segment>, b: Seq<Segment>, so: u64) -> bool {
     &&& a.len() == b.len()
     &&& forall|i: int| 0 <= i < a.len() ==> seg_core_eq(#[trigger] a[i], b[i]) && (a[i].start_offset != so ==> b[i] == a[i])
@@ -552,25 +569,56 @@ pub open spec fn block_ok(p0: Partition, p1: Partition, lo: Seq<u64>) -> bool {
 }
 // what holds for a partition in EVERY outcome (also when an I/O error ends the pass early): offsets untouched and
 // no segment that was not listed is lost or altered
+#[verifier::opaque]
+pub open spec fn segs_survive(a: Seq<Segment>, b: Seq<Segment>, lo: Seq<u64>) -> bool {
+    forall|i: int| 0 <= i < a.len() && !lo.contains((#[trigger] a[i]).start_offset) ==> exists|j: int| 0 <= j < b.len() && #[trigger] b[j] == a[i]
+}
 pub open spec fn block_sound(p0: Partition, p1: Partition, lo: Seq<u64>) -> bool {
-    &&& part_frame(p0, p1)
-    &&& forall|i: int| 0 <= i < p0.segments@.len() && !lo.contains((#[trigger] p0.segments@[i]).start_offset)
-            ==> exists|j: int| 0 <= j < p1.segments@.len() && #[trigger] p1.segments@[j] == p0.segments@[i]
+    part_frame(p0, p1) && segs_survive(p0.segments@, p1.segments@, lo)
+}
+pub proof fn lemma_survive_refl(a: Seq<Segment>, lo: Seq<u64>)
+    ensures segs_survive(a, a, lo),
+{ reveal(segs_survive); }
+// b is what is kept of a after removing (a subset of) the listed segments
+pub proof fn lemma_survive_keep(a: Seq<Segment>, lo: Seq<u64>, part: Seq<u64>)
+    requires forall|v: u64| part.contains(v) ==> lo.contains(v),
+    ensures segs_survive(a, seq_keep(a, not_listed(part)), lo),
+{
+    reveal(segs_survive);
+    let b = seq_keep(a, not_listed(part));
+    assert forall|i: int| 0 <= i < a.len() && !lo.contains((#[trigger] a[i]).start_offset) implies exists|j: int| 0 <= j < b.len() && #[trigger] b[j] == a[i] by {
+        assert(not_listed(part)(a[i]));
+        let j = lemma_keep_dst(a, not_listed(part), i);
+        assert(b[j] == a[i]);
+    }
+}
+// a failed delete_segment(so) with so listed: whatever it leaves (ns) still holds every unlisted segment unaltered
+pub proof fn lemma_survive_err(a: Seq<Segment>, cur: Seq<Segment>, ns: Seq<Segment>, lo: Seq<u64>, so: u64)
+    requires segs_survive(a, cur, lo), segs_same_except(cur, ns, so), lo.contains(so),
+    ensures segs_survive(a, ns, lo),
+{
+    reveal(segs_survive);
+    reveal(segs_same_except);
+    assert forall|i: int| 0 <= i < a.len() && !lo.contains((#[trigger] a[i]).start_offset) implies exists|j: int| 0 <= j < ns.len() && #[trigger] ns[j] == a[i] by {
+        let j = choose|j: int| 0 <= j < cur.len() && #[trigger] cur[j] == a[i];
+        assert(seg_core_eq(cur[j], ns[j]));
+        assert(ns[j] == cur[j]);
+    }
 }
 pub proof fn lemma_block_ok_sound(p0: Partition, p1: Partition, lo: Seq<u64>)
     requires block_ok(p0, p1, lo),
     ensures block_sound(p0, p1, lo),
 {
-    lemma_keep_props(p0.segments@, not_listed(lo));
     let k = seq_keep(p0.segments@, not_listed(lo));
-    assert forall|i: int| 0 <= i < p0.segments@.len() && !lo.contains((#[trigger] p0.segments@[i]).start_offset)
-        implies exists|j: int| 0 <= j < p1.segments@.len() && #[trigger] p1.segments@[j] == p0.segments@[i] by {
-        assert(not_listed(lo)(p0.segments@[i]));
-        let j = choose|j: int| 0 <= j < k.len() && k[j] == p0.segments@[i];
-        assert(p1.segments@[j] == p0.segments@[i]);
+    lemma_survive_keep(p0.segments@, lo, lo);
+    if k.len() == 0 {
+        reveal(segs_survive);
+        assert forall|i: int| 0 <= i < p0.segments@.len() && !lo.contains((#[trigger] p0.segments@[i]).start_offset) implies exists|j: int| 0 <= j < p1.segments@.len() && #[trigger] p1.segments@[j] == p0.segments@[i] by {
+            assert(not_listed(lo)(p0.segments@[i]));
+            let j = lemma_keep_dst(p0.segments@, not_listed(lo), i);
+        }
     }
 }
-
 pub open spec fn topic_frame(a: Topic, b: Topic) -> bool {
     &&& a.stream_id == b.stream_id && a.topic_id == b.topic_id && a.message_expiry == b.message_expiry && a.config == b.config
     &&& forall|k: u32| #![trigger a.partitions@.contains_key(k)] #![trigger b.partitions@.contains_key(k)] a.partitions@.contains_key(k) <==> b.partitions@.contains_key(k)
@@ -583,3 +631,95 @@ pub proof fn lemma_not_mentioned_self(l: Seq<SegmentsToHandle>, n: int)
     requires 0 <= n < l.len(), forall|k1: int, k2: int| 0 <= k1 < k2 < l.len() ==> (#[trigger] l[k1]).partition_id != (#[trigger] l[k2]).partition_id,
     ensures not_mentioned(l, n, l[n].partition_id),
 {}
+
+// ---- the pass as a whole ------------------------------------------------------------------------------------------
+// archiver (third-party storage / disk copy): not extracted. Returns Ok or Err arbitrarily; it only reads the topic.
+#[verifier::external_body]
+pub fn archive_segments(topic: &Topic, segments_to_archive: &[SegmentsToHandle], archiver: Arc<ArchiverKind>) -> (r: Result<u64, IggyError>)
+{ unimplemented!() }
+
+// [C14.only] at segment level: every segment of `a` that is NOT expired at `now` is still in `b`, unaltered
+#[verifier::opaque]
+pub open spec fn unexpired_survive(a: Seq<Segment>, b: Seq<Segment>, now: int) -> bool {
+    forall|i: int| 0 <= i < a.len() && !seg_expired(#[trigger] a[i], now) ==> exists|j: int| 0 <= j < b.len() && #[trigger] b[j] == a[i]
+}
+// [C14.only] + [C14.off] for a whole pass over topic t0 -> t1 with clock reading `now`
+pub open spec fn pass_only_expired(t0: Topic, t1: Topic, now: int) -> bool {
+    &&& topic_frame(t0, t1)
+    &&& forall|k: u32| #[trigger] t0.partitions@.contains_key(k) ==> part_frame(t0.partitions@[k], t1.partitions@[k])
+            && unexpired_survive(t0.partitions@[k].segments@, t1.partitions@[k].segments@, now)
+}
+// the all-outcomes part of delete_segments' contract, bundled (helper)
+pub open spec fn del_post_sound(t0: Topic, t1: Topic, l: Seq<SegmentsToHandle>) -> bool {
+    &&& topic_frame(t0, t1)
+    &&& forall|k: u32| #[trigger] t0.partitions@.contains_key(k) ==> part_frame(t0.partitions@[k], t1.partitions@[k])
+    &&& forall|k: u32| t0.partitions@.contains_key(k) && not_mentioned(l, l.len() as int, k) ==> #[trigger] t1.partitions@[k] == t0.partitions@[k]
+    &&& forall|m: int| 0 <= m < l.len() && t0.partitions@.contains_key((#[trigger] l[m]).partition_id)
+            ==> block_sound(t0.partitions@[l[m].partition_id], t1.partitions@[l[m].partition_id], l[m].start_offsets@)
+}
+// A-range: whatever a pass can list for this topic fits the u32 statistics counter of HandledSegments
+// (the stream-wide segment counter is an AtomicU32 as well)
+pub open spec fn stats_room(t: Topic) -> bool {
+    forall|now: int, l: Seq<SegmentsToHandle>| #[trigger] pass_list_sound(t, now, l) ==> total_listed(l, l.len() as int) <= u32::MAX
+}
+
+pub proof fn lemma_unexpired_refl(a: Seq<Segment>, now: int)
+    ensures unexpired_survive(a, a, now),
+{ reveal(unexpired_survive); }
+
+pub proof fn lemma_pass_refl(t: Topic, now: int)
+    ensures pass_only_expired(t, t, now),
+{
+    assert forall|k: u32| #[trigger] t.partitions@.contains_key(k) implies unexpired_survive(t.partitions@[k].segments@, t.partitions@[k].segments@, now) by {
+        lemma_unexpired_refl(t.partitions@[k].segments@, now);
+    }
+}
+
+// what get_expired_segments lists is fit for delete_segments: ascending, every listed offset names a closed segment
+pub proof fn lemma_pass_list_del_ok(t: Topic, now: int, l: Seq<SegmentsToHandle>)
+    requires topic_wf(t), pass_list_sound(t, now, l),
+    ensures del_list_ok(t, l),
+{
+    assert forall|k: int| 0 <= k < l.len() && t.partitions@.contains_key((#[trigger] l[k]).partition_id) implies del_entry_ok(t.partitions@[l[k].partition_id], l[k].start_offsets@) by {
+        let p = t.partitions@[l[k].partition_id];
+        let lo = l[k].start_offsets@;
+        assert(expired_list(p, now, lo));
+        assert forall|m: int| 0 <= m < lo.len() implies exists|i: int| 0 <= i < p.segments@.len() && (#[trigger] p.segments@[i]).start_offset == #[trigger] lo[m] && p.segments@[i].is_closed by {
+            assert(expired_start(p.segments@, p.segments@.len() as int, now, lo[m]));
+            let i = choose|i: int| 0 <= i < p.segments@.len() && (#[trigger] p.segments@[i]).start_offset == lo[m] && seg_expired(p.segments@[i], now);
+            assert(p.segments@[i].is_closed);
+        }
+        assert(part_wf(p));
+        assert(strict_u64(lo));
+    }
+}
+
+// only expired segments are lost: listed => expired (start offsets are unique), unlisted => survive
+pub proof fn lemma_pass_only_expired(t0: Topic, t1: Topic, l: Seq<SegmentsToHandle>, now: int)
+    requires topic_wf(t0), pass_list_sound(t0, now, l), del_post_sound(t0, t1, l),
+    ensures pass_only_expired(t0, t1, now),
+{
+    assert forall|k: u32| #[trigger] t0.partitions@.contains_key(k) implies unexpired_survive(t0.partitions@[k].segments@, t1.partitions@[k].segments@, now) by {
+        let a = t0.partitions@[k].segments@;
+        let b = t1.partitions@[k].segments@;
+        if not_mentioned(l, l.len() as int, k) {
+            assert(t1.partitions@[k] == t0.partitions@[k]);
+            lemma_unexpired_refl(a, now);
+        } else {
+            let m = choose|m: int| 0 <= m < l.len() && (#[trigger] l[m]).partition_id == k;
+            let lo = l[m].start_offsets@;
+            assert(block_sound(t0.partitions@[k], t1.partitions@[k], lo));
+            assert(expired_list(t0.partitions@[k], now, lo));
+            reveal(segs_survive);
+            reveal(unexpired_survive);
+            assert forall|i: int| 0 <= i < a.len() && !seg_expired(#[trigger] a[i], now) implies exists|j: int| 0 <= j < b.len() && #[trigger] b[j] == a[i] by {
+                if lo.contains(a[i].start_offset) {
+                    let w = choose|w: int| 0 <= w < lo.len() && lo[w] == a[i].start_offset;
+                    assert(expired_start(a, a.len() as int, now, lo[w]));
+                    let i2 = choose|i2: int| 0 <= i2 < a.len() && (#[trigger] a[i2]).start_offset == lo[w] && seg_expired(a[i2], now);
+                    lemma_sorted_unique(a, i, i2);
+                }
+            }
+        }
+    }
+}
